@@ -69,6 +69,8 @@ def main():
         out["patch_applies"] = rc == 0
         if rc:
             out["apply_error"] = txt[-600:]
+            with open(os.path.join(src, "eval.json"), "w", encoding="utf-8") as handle:
+                json.dump(out, handle, indent=1)
             print(json.dumps(out, indent=1))
             return 2
         if os.path.exists(demo):
